@@ -187,6 +187,15 @@ def crash_signature(err):
     m = re.search(r"Assertion `(.*?)' failed", err)
     if m:
         return "Assertion `%s' failed" % m.group(1)[:100]
+    m = re.search(r"ERROR: AddressSanitizer: ([a-z\-]+)", err)
+    if m:
+        kind = m.group(1)
+        var = re.search(r"'([^']+)' \(line (\d+)\) <== Memory access", err)
+        frame = re.search(r"#0 0x[0-9a-f]+ in .*? (/[^ ]+\.[hc]pp):(\d+)", err)
+        where = ""
+        if frame:
+            where = "%s:%s" % (os.path.relpath(frame.group(1), common.REPO) if frame.group(1).startswith(common.REPO) else os.path.basename(frame.group(1)), frame.group(2))
+        return "AddressSanitizer %s%s%s" % (kind, " of '%s' (declared line %s)" % (var.group(1), var.group(2)) if var else "", " at " + where if where else "")
     for ln in err.split("\n"):
         if "runtime error:" in ln:
             return ln.split("runtime error:")[1].strip()[:120]
